@@ -71,6 +71,10 @@ def build(case, i):
     calls += [{"op": "metric", "obj": hs}, {"op": "metric", "obj": ts}]
     marks["gather"] = len(calls)
     calls += [{"op": "default_gather"}, {"op": "gather", "reg": "rc"}, {"op": "gather", "reg": "rp"}]
+    if case["taken"] != "no":
+        # after the refused call the earlier registration is still in place: registering it again is refused, as before the call
+        marks["again"] = len(calls)
+        calls.append({"op": "register", "reg": target, "obj": "t0"} if target else {"op": "default_register", "obj": "t0"})
     return calls, marks, name
 
 
@@ -137,6 +141,14 @@ def run(ctx):
         if c["outcome"] != "Ok":
             if kind(mr) != "AlreadyReg" and "err" not in mr:
                 ctx.violation("refused-registration-not-err", "%s with an already registered descriptor evaluated to %s" % (arm, json.dumps(mr)[:200]), rp); continue
+            # the refused call changed nothing: the metric registered before it is still exposed by the targeted registry and still registered
+            gi = marks["gather"] + {"default": 0, "custom": 1, "custom_prefixed": 2}[c["target"]]
+            fam = find(rs[gi].get("ok", []), ("pre_" if c["target"] == "custom_prefixed" else "") + name)
+            ag = rs[marks["again"]]
+            scalar_before = c["taken"] == "otherkind" or not c["m"].endswith("_vec")      # a vector without children exposes no family
+            if (fam is None and scalar_before) or "err" not in ag:
+                ctx.violation("refused-call-changed-the-registry", "%s was refused (name taken), after which the earlier metric %s and registering it again gives %s" % (
+                    arm, "is no longer gathered" if fam is None else "is still gathered", json.dumps(ag)[:120]), rp); continue
             nok += 1
             continue
         if "ok" not in mr:
@@ -174,6 +186,24 @@ def run(ctx):
             ctx.violation("options-macro", "%s evaluated to %s" % (json.dumps(j["calls"][0])[:200], json.dumps(rr)[:300]), {"calls": j["calls"], "case": {}})
         else:
             nok += 1
+    # register_static_*_vec!(Struct, args...) of the static-metric crate: each is register_*_vec!(args...) followed by Struct::from.
+    # Fixed program (harness binary vh_af, mode regstatic): every form next to its explicit twin, compared sample by sample
+    p = sh([os.path.join(os.path.dirname(exe), "vh_af"), "regstatic"], timeout=300, check=False)
+    try:
+        out = json.loads(p.stdout.strip().splitlines()[-1])
+    except Exception:
+        raise ToolError("vh_af regstatic failed (%d): %s" % (p.returncode, p.stdout[-2000:]))
+    nstatic = 0
+    if "panic" in out:
+        ctx.violation("static-register-macro:panic", "register_static_*_vec! panicked: %s" % out["panic"][:300], {"calls": [], "case": {"static": True}})
+    else:
+        for x in out["ok"]:
+            if x["macro"] != x["twin"]:
+                ctx.violation("static-register-macro", "register_static_%s: the registered metric differs from the explicit twin's: %s vs %s" % (x["form"], json.dumps(x["macro"])[:300], json.dumps(x["twin"])[:300]), {"calls": [], "case": {"static": True, "form": x["form"]}})
+            else:
+                nstatic += 1
+    nok += nstatic
+    ctx.cov["static_register_macro_forms_conforming"] = nstatic
     ctx.cov.update({"traces_validated_against_impl": nok, "macro_cases": len(cases), "option_macro_cases": len(ojobs), "conforming": nok,
                     "arms_covered": len({(c["m"], c["form"], c["tc"], c["target"] == "default") for c in cases}),
                     "samples": [cases[0], cases[len(cases) // 2]], "exhaustive": True,
@@ -186,6 +216,11 @@ def run(ctx):
 def replay(path):
     d = json.load(open(path))
     rp = d["replay"]
+    if rp.get("case", {}).get("static"):
+        exe = build_harness()
+        print(sh([os.path.join(os.path.dirname(exe), "vh_af"), "regstatic"], timeout=300, check=False).stdout[-4000:])
+        print("verdict: compare 'macro' and 'twin' of each form above")
+        return 1
     ctx = Ctx("C20_replay", "quick", 0, LEVEL)
     exe = build_harness()
     rs = run_api(ctx, exe, [{"id": 0, "calls": rp["calls"]}], "replay")[0]
